@@ -179,7 +179,7 @@ class Job:
     def __init__(self, name, prop, tus, harness, enforce=None, replace=(), defines=(), tu_defines=(),
                  entry='harness', unwind=8, kind='proof', bound=None, canaries=(), checks=(),
                  extra_src=(), timeout=300, mem_gb=8, rfp=False, replay=None, function_label=None,
-                 loop_contracts=False, solver=(), arbiter=None, nondet_static=False, object_bits=None, assumptions=(),
+                 loop_contracts=False, solver=(), arbiter=None, include_tus=None, loops=None, nondet_static=False, object_bits=None, assumptions=(),
                  no_default=()):
         self.__dict__.update(locals())
         del self.__dict__['self']
@@ -187,6 +187,11 @@ class Job:
 
 def mangle(spec):
     """'file.c:fn' -> CBMC's exported name of a file-local symbol."""
+    if '::' in spec:
+        # static function of a source that the harness #includes: the contract symbol carries the
+        # plain name, the function the exported file-local name
+        f, fn = spec.split('::')
+        return '__CPROVER_file_local_%s_%s/%s' % (re.sub(r'\W', '_', f), fn, fn)
     if ':' in spec:
         f, fn = spec.split(':')
         return '__CPROVER_file_local_%s_%s' % (re.sub(r'\W', '_', f), fn)
@@ -230,8 +235,13 @@ def _run_job(ws, job, r, extra_defines, want_trace):
     a = base + '_a.gb'
     inc_dirs = ['-I' + os.path.dirname(os.path.join(REPO, t)) for t in job.tus]
     gen_dirs = ['-I' + os.path.dirname(ws.source(t)) for t in job.tus if t.endswith('.m4')]
+    inc_defs = []
+    for macro, rel in (job.include_tus or {}).items():
+        # the real source is #included by the harness TU (needed to reach file-scope static variables)
+        inc_defs.append('-D%s="%s"' % (macro, ws.source(rel)))
+        inc_dirs.append('-I' + os.path.dirname(os.path.join(REPO, rel)))
     cmd = ['goto-cc', '--export-file-local-symbols', '--function', job.entry] + ws.inc() + VERIF_INC + inc_dirs + gen_dirs + \
-          list(job.defines) + list(extra_defines) + srcs + gbs + ['-o', a]
+          inc_defs + list(job.defines) + list(extra_defines) + srcs + gbs + ['-o', a]
     rc, so, se, dt = sh(cmd, 600)
     r.secs['link'] = round(dt, 2)
     r.cmds.append(' '.join(cmd))
@@ -248,7 +258,10 @@ def _run_job(ws, job, r, extra_defines, want_trace):
         cmd += ['--enforce-contract', mangle(job.enforce)]
     for g in job.replace:
         cmd += ['--replace-call-with-contract', mangle(g)]
-    if job.loop_contracts:
+    if job.loops:
+        lf = write_loop_contracts(ws, job, a, base)
+        cmd += ['--apply-loop-contracts', '--loop-contracts-file', lf]
+    elif job.loop_contracts:
         cmd += ['--apply-loop-contracts']
     cmd += [a, b]
     rc, so, se, dt = sh(cmd, 900, mem_gb=job.mem_gb)
@@ -318,9 +331,55 @@ def _run_job(ws, job, r, extra_defines, want_trace):
         raise Infra('no postcondition obligation generated for %s (contract not attached?)' % job.enforce)
     if unknown and not r.failures:
         raise Infra('%d obligations UNKNOWN/ERROR: %s' % (len(unknown), unknown[0]['id']))
-    if r.canary_dead:
+    if r.canary_dead and not r.failures:
         raise Infra('vacuity: canaries not reachable: ' + ','.join(r.canary_dead))
     r.status = 'fail' if r.failures else 'ok'
+
+
+def write_loop_contracts(ws, job, gb, base):
+    """job.loops: list of dicts {function, anchor (regex on the loop header's source line), invariants,
+    assigns, decreases, symbol_map}.  The loop is located by its source anchor against
+    goto-instrument --show-loops on every run, never by a hard-coded ordinal."""
+    rc, so, se, _ = sh(['goto-instrument', '--show-loops', '--json-ui', gb], 300)
+    try:
+        out = json.loads(so)
+    except Exception:
+        raise Infra('show-loops failed: ' + (so + se)[-300:])
+    loops = []
+    for o in out:
+        if isinstance(o, dict) and 'loops' in o:
+            loops = o['loops']
+    fns = {}
+    files = set()
+    for spec in job.loops:
+        fn = mangle(spec['function']).split('/')[0]
+        cands = []
+        for l in loops:
+            loc = l.get('sourceLocation', {})
+            if loc.get('function') != fn and not l.get('name', '').startswith(fn + '.'):
+                continue
+            f = loc.get('file', '')
+            if not os.path.isabs(f):
+                f = os.path.join(loc.get('workingDirectory', ''), f)
+            try:
+                line = open(f, errors='replace').read().split('\n')[int(loc.get('line', 0)) - 1]
+            except Exception:
+                line = ''
+            if re.search(spec['anchor'], line):
+                cands.append((l['name'], f))
+        if len(cands) != 1:
+            raise Infra('loop anchor %r in %s matched %d loops' % (spec['anchor'], fn, len(cands)))
+        name, f = cands[0]
+        files.add(f)
+        ent = {'loop_id': name.split('.')[-1], 'invariants': spec['invariants']}
+        for k in ('assigns', 'decreases', 'symbol_map'):
+            if spec.get(k):
+                ent[k] = spec[k]
+        fns.setdefault(fn, []).append(ent)
+    cfg = {'sources': sorted(files), 'functions': [{k: v} for k, v in fns.items()]}
+    lf = base + '_loops.json'
+    json.dump(cfg, open(lf, 'w'), indent=1)
+    return lf
 
 
 def trace_inputs(trace):
